@@ -373,6 +373,38 @@ def check_dim_change(kind, seed, d1, d2, n=4):
     return []
 
 
+def check_copies(kind, seed, d, used, n=4):
+    """A sampler that was pickled or deep-copied (a template copied per run, an object sent to a worker, a checkpoint written before
+    its first turn) continues exactly like the original - whether the copy was taken before the first draw or after some draws."""
+    import copy
+    import pickle
+
+    from black_it.samplers.halton import HaltonSampler
+    from black_it.samplers.r_sequence import RSequenceSampler
+    from vf.core import quiet
+
+    cls = HaltonSampler if kind == "halton" else RSequenceSampler
+    sp, sp_small = _space(d, 2.0**-17), _space(2, 2.0**-17)
+
+    def draw(s, space, k):
+        with quiet():
+            return np.asarray(s.sample_batch(k, space, np.zeros((0, space.dims)), np.zeros(0)))
+
+    a = cls(batch_size=n, random_state=seed)
+    if used == "same":
+        draw(a, sp, n)
+    elif used == "small":
+        draw(a, sp_small, n)
+    copies = {"pickle": pickle.loads(pickle.dumps(a)), "deepcopy": copy.deepcopy(a)}
+    want = draw(a, sp, n)
+    for how, c in copies.items():
+        got = draw(c, sp, n)
+        if got.shape != want.shape or not np.array_equal(got, want):
+            return [(f"{kind}-copy-differs", f"{cls.__name__} seed {seed}, {d} dimensions: a {how} copy taken {'before the first draw' if used == 'fresh' else 'after a draw in ' + ('2' if used == 'small' else str(d)) + ' dimensions'} "
+                     f"continues differently from the original (first differing column {int(np.argmax(np.any(got != want, axis=0))) if got.shape == want.shape else 'shape'})")]
+    return []
+
+
 _PHI = {}
 
 
@@ -418,6 +450,16 @@ def cell_samplers(cell):
                 res["nontrivial"] += 1
                 for key, what in vs:
                     _viol(res, key, what, {"mode": "dim-change", "kind": kind, "seed": seed, "d1": d1, "d2": d2})
+    for seed in cell["seeds"][:1]:
+        for d in cell.get("copy_dims", []):
+            for kind in ("halton", "rseq"):
+                for used in ("fresh", "same", "small"):
+                    vs = check_copies(kind, seed, d, used)
+                    res["evaluations"] += 1
+                    res["traces"] += 1
+                    res["nontrivial"] += 1
+                    for key, what in vs:
+                        _viol(res, key, what, {"mode": "copies", "kind": kind, "seed": seed, "d": d, "used": used})
     for seed, ss in starts.items():
         if len(ss) != 1:
             _viol(res, "start-index-not-function-of-seed", f"HaltonSampler seed {seed}: start indices {sorted(ss)} across dimensions", {"mode": "halton-sampler", "seed": seed, "d": 1, "raw": False})
@@ -448,6 +490,8 @@ def replay_case(case):
     if m == "rseq":
         vs, _ = check_rseq(case["seed"], case["d"])
         return [{"key": k, "what": w} for k, w in vs]
+    if m == "copies":
+        return [{"key": k, "what": w} for k, w in check_copies(case["kind"], case["seed"], case["d"], case["used"])]
     if m == "dim-change":
         return [{"key": k, "what": w} for k, w in check_dim_change(case["kind"], case["seed"], case["d1"], case["d2"])]
     if m == "primes":
@@ -481,9 +525,9 @@ def main(ctx):
     for i in range(0, nseeds, 5):
         cells.append({"kind": "samplers", "seeds": seeds[i:i + 5], "halton_dims": [(1, False), (2, False), (3, False), (3, True), (10, True), (40, True)] if i == 0 or not ctx.quick else [(1, False), (3, False), (5, True)],
                       "rseq_dims": [1, 2, 3, 10, 40] if i == 0 or not ctx.quick else [1, 2, 7], "phi": i == 0,
-                      "dim_changes": [(a, b) for a in DIMS_CH for b in DIMS_CH if a != b][i // 5::nseeds // 5]})
+                      "dim_changes": [(a, b) for a in DIMS_CH for b in DIMS_CH if a != b][i // 5::nseeds // 5], "copy_dims": DIMS_CH[i // 5::nseeds // 5]})
     ctx.bounds = {"halton_indices": f"[0, {N_IDX})", "primes": nb, "batch_sizes": "sizes 1,2 at every end position, 3(,4) aligned; sizes 5,8,61(,16) aligned and at every end position within 12 (32 thorough; 2 for size > 8) of a power of 2, 3 or 5", "sampler_seeds": f"{S}..{S + nseeds - 1}",
-                  "compositions": "all 32 compositions of 6", "dimension_changes_on_one_object": "all ordered pairs of {1,2,3,5,6,12,17,18,20,33,40}, both samplers, two seeds", "dims": "1..3 public path on dyadic grid 2^-17; up to 40 with identity snapping"}
+                  "compositions": "all 32 compositions of 6", "pickled_and_deep_copied_samplers": "copies taken before the first draw / after a draw in the same / in 2 dimensions, 11 dimensions, both samplers", "dimension_changes_on_one_object": "all ordered pairs of {1,2,3,5,6,12,17,18,20,33,40}, both samplers, two seeds", "dims": "1..3 public path on dyadic grid 2^-17; up to 40 with identity snapping"}
     ctx.rule = ("every index of the range in every listed batch size/alignment; every composition of 6; evaluations = halton()/sampler scenarios judged; "
                 "non-trivial = batch of more than one point / sampler scenario")
     ctx.assumptions = ["reference radical inverse by exact Fraction digit reversal; phi_d by 60-digit Decimal fixed-point iteration",
